@@ -48,8 +48,8 @@ Record series := mkSeries {
 
 Definition no_day_rule (r : rule) : bool := is_nil (r_byweekday r) && is_nil (r_bymonthday r).
 
-Definition series_of (r : rule) : series :=
-  let base := s_base r in
+(* the series of r phase-aligned to (and taking its defaults from) the date [base] *)
+Definition series_from (r : rule) (base : Z) : series :=
   let f := r_freq r in
   mkSeries f (r_interval r) (period_of f (cdate_of base))
     (if no_day_rule r && freq_eqb f Yearly && is_nil (r_bymonth r) then [month_of base] else r_bymonth r)
@@ -57,6 +57,8 @@ Definition series_of (r : rule) : series :=
     (if no_day_rule r && freq_eqb f Weekly then [(weekday base, None)] else r_byweekday r)
     (freq_eqb f Yearly && is_nil (r_bymonth r))
     (r_bysetpos r).
+
+Definition series_of (r : rule) : series := series_from r (s_base r).
 
 (* INTERVAL: every interval-th period counted from the base date's period, in both directions *)
 Definition in_phase (s : series) (c : cdate) : bool :=
